@@ -8,6 +8,7 @@ child.  Model side: oracle/main.ml around the extracted Hal.step / Hal.hal_close
 """
 import json
 import os
+import shutil
 import struct
 
 import vlib
@@ -330,6 +331,12 @@ def run_batch(ctx, orac, impl, cases, tag, variant="fixed"):
     return res
 
 
+def drop_cases(ctx, tag):
+    """Remove the scratch directories of a batch once its files have been read back (a thorough run would otherwise
+    leave > 100 000 directories for the next run to wipe)."""
+    shutil.rmtree(os.path.join(ctx.bdir, "cases", tag), ignore_errors=True)
+
+
 def read_file(case, path):
     p = os.path.join(case["dir"], path)
     try:
@@ -581,6 +588,7 @@ def minimise(ctx, orac, impl, case, prop, key, counter=[0]):
         r = run_batch(ctx, orac, impl, [cand], "min%d" % counter[0])
         c, io, mo, err = r[0]
         vs = oracle_c14(c, io)[0] if prop == "C14" else oracle_c16(c, io, err)
+        drop_cases(ctx, "min%d" % counter[0])
         return any(k == key for k, _ in vs)
 
     try:
@@ -638,6 +646,7 @@ def fold(ctx, orac, impl, results, prop, label):
                 r = run_batch(ctx, orac, impl, [small], "rep-" + key)
                 c2, io2, mo2, err2 = r[0]
                 vs2 = oracle_c14(c2, io2)[0] if prop == "C14" else oracle_c16(c2, io2, err2)
+                drop_cases(ctx, "rep-" + key)
                 w2 = next((w for k3, w in vs2 if k3 == key), what)
                 ctx.violation("[%s %s] %s" % (case["kind"], key, w2), replay_obj(ctx, c2, io2, w2), key=key)
             else:
@@ -736,6 +745,10 @@ def run(ctx):
         "ftruncate(fd, 0) in file_create (and access/unlink in file_is_writable) are not interposed and are taken to succeed; "
         "an existing file is taken to be writable",
     ]
+    ctx.notes.append("theorems quantify over all histories, all packets, all create/write scripts (every fault index, transient or persistent, every "
+                     "short-write pattern) and all descriptor tables, by induction; the correspondence samples them and sweeps every fault index "
+                     "of its reference histories")
+    ctx.notes.append("model = the code with fixes/01-04 applied (05 is in /repo as a3ee066) and file_create truncating (468e0c6)")
     ctx.extra["scope_notes"] = [
         "C14 oracle: acquisitions that re-use a path of the same history are outside the property's text ('other paths'); counted in c14_outside and "
         "not judged by the oracle. The model (file_create truncates) still predicts their bytes and the tie compares them; theorem C14_exact covers them",
@@ -753,11 +766,13 @@ def run(ctx):
         c = import_case(c)
         c["src"] = rf
         fold(ctx, orac, impl, run_batch(ctx, orac, impl, [c], "replay"), prop, "replay")
+        drop_cases(ctx, "replay")
         return
     # ---- corpus
     corpus = load_corpus(prop)
     if corpus:
         fold(ctx, orac, impl, run_batch(ctx, orac, impl, corpus, "corpus"), prop, "corpus")
+        drop_cases(ctx, "corpus")
     # ---- generated cases
     cases = []
     if prop == "C14":
@@ -813,6 +828,7 @@ def run(ctx):
     for b in range(0, len(cases), chunk):
         res = run_batch(ctx, orac, impl, cases[b:b + chunk], "g%d" % (b // chunk))
         fold(ctx, orac, impl, res, prop, "generated")
+        drop_cases(ctx, "g%d" % (b // chunk))
     # ---- thorough: independent re-check of the compiled proofs with coqchk
     pf = "Properties_" + prop
     if thorough and os.path.exists(os.path.join(ctx.coqdir, pf + ".vo")):
